@@ -59,6 +59,15 @@ def busyH : HPc → Bool
   | .done => false
   | _ => true
 
+@[simp] theorem busyH_wantAcc (w m p e n) : busyH (.wantAcc w m p e n) = true := rfl
+@[simp] theorem busyH_relAcc (w m p e n) : busyH (.relAcc w m p e n) = true := rfl
+@[simp] theorem busyH_afterCall (w m p e n) : busyH (afterCall w m p e n) = true := by
+  unfold afterCall; split <;> rfl
+@[simp] theorem busyH_afterStart (cfg r) : busyH (afterStart cfg r) = true := by
+  cases r with
+  | rw w m p e => by_cases hk : cfg.rw w m p = .calls <;> simp [afterStart, hk, busyH]
+  | _ => rfl
+
 def busyU : UPc → Bool
   | .wantSub _ _ _ => true
   | .sending _ _ _ _ => true
@@ -142,7 +151,7 @@ theorem openInv_reach (cfg : Cfg) (hs us cache) (σ : State) (h : Reach cfg (ini
     unfold step at hstep
     split at hstep
     · exact openInv_stepH cfg _ _ _ ih hstep
-    · exact openInv_stepU cfg _ _ _ _ ih hstep
+    · exact openInv_stepU cfg _ _ _ _ ih (stepUG_some hstep)
 
 /-! ## what is still to come for a listening connection -/
 
@@ -159,6 +168,14 @@ def todo (cfg : Cfg) : HPc → List (Mod × Par)
 @[simp] theorem todo_start (cfg : Cfg) (r) : todo cfg (.start r) = [] := rfl
 @[simp] theorem todo_wantSub (cfg : Cfg) (r) : todo cfg (.wantSub r) = [] := rfl
 @[simp] theorem todo_relDisp (cfg : Cfg) (r ok) : todo cfg (.relDisp r ok) = [] := rfl
+@[simp] theorem todo_wantAcc (cfg : Cfg) (w m p e n) : todo cfg (.wantAcc w m p e n) = [] := rfl
+@[simp] theorem todo_relAcc (cfg : Cfg) (w m p e n) : todo cfg (.relAcc w m p e n) = [] := rfl
+@[simp] theorem todo_afterCall (cfg : Cfg) (w m p e n) : todo cfg (afterCall w m p e n) = [] := by
+  unfold afterCall; split <;> rfl
+@[simp] theorem todo_afterStart (cfg : Cfg) (r) : todo cfg (afterStart cfg r) = [] := by
+  cases r with
+  | rw w m p e => by_cases hk : cfg.rw w m p = .calls <;> simp [afterStart, hk, todo]
+  | _ => rfl
 @[simp] theorem todo_rep (cfg : Cfg) (r ok) : todo cfg (.rep r ok) = [] := rfl
 @[simp] theorem todo_firstPc (cfg : Cfg) (r) : todo cfg (firstPc r) = [] := by cases r <;> rfl
 @[simp] theorem todo_relSub_activate (cfg : Cfg) (s) : todo cfg (.relSub (.activate s)) = scopeItems cfg s := rfl
@@ -371,6 +388,7 @@ theorem qInv_step (cfg : Cfg) (cache) (σ σ' : State) (a : Act) (hS : SnapInv c
       exact good_stepH_other cfg σ σ' c0 c m p hne hs (hQ c hc m hm p hp hl)
   · rename_i k _
     intro c hc m hm p hp hl
+    have hs := stepUG_some hs
     obtain ⟨_, _, _, _, f5, f6, _⟩ := stepU_frame cfg σ σ' k a.arg hs
     have hl' : listens σ c m p = true := by simpa [listens, f5, f6] using hl
     exact good_stepU cfg cache σ σ' k a.arg c m p hc hS hs hl' (hQ c hc m hm p hp hl')
